@@ -306,6 +306,25 @@ pub fn run_c12(ctx: &Ctx, rng: &mut Rng, tier: Tier, bin: &str) -> Outcome {
             jobs.push(Job { case: Case { tcs: t.clone(), cfg }, channel, crlf: rng.chance(1, 2), final_nl: rng.chance(1, 2), short: rng.chance(1, 2) });
         }
     }
+    // outputs that begin or end with white space (the front end must not trim or re-format what the library returns):
+    // every test case shares a blank / ideographic space / no-break space at one end and the anchor on that side is off
+    let edge: Vec<Vec<String>> = vec![
+        vec!["a ".into(), "b ".into()], vec![" a".into(), " b".into()], vec!["y x ".into(), "x ".into()], vec![" ".into()],
+        vec!["\u{65e5}\u{3000}".into()], vec!["\u{3000}q".into()], vec!["\u{a0}".into(), "z\u{a0}".into()], vec!["a  ".into()],
+        vec!["ab\u{2028}".into()], vec!["\u{85}c".into(), "\u{85}d".into()],
+    ];
+    let edge_flags = [mask(&[BIT_NO_END]), mask(&[BIT_NO_START]), mask(&[BIT_NO_START, BIT_NO_END]), mask(&[BIT_NO_END, BIT_VERB]),
+        mask(&[BIT_NO_START, BIT_NO_END, BIT_CAP]), mask(&[BIT_NO_END, BIT_CI])];
+    for (k, t) in edge.iter().enumerate() {
+        for (j, fl) in edge_flags.iter().enumerate() {
+            for channel in 0..4usize {
+                if quick && (k + j + channel) % 2 == 1 {
+                    continue;
+                }
+                jobs.push(Job { case: Case { tcs: t.clone(), cfg: Cfg::new(*fl) }, channel, crlf: (k + j) % 2 == 0, final_nl: (j + channel) % 2 == 0, short: k % 2 == 0 });
+            }
+        }
+    }
     let dirs = dir.clone();
     let results: Vec<(Vec<Fail>, bool)> = par_map(&(0..jobs.len()).collect::<Vec<_>>(), ctx.threads, |i| {
         let job = &jobs[*i];
